@@ -88,6 +88,11 @@ fn run_script(script: &Value) -> Value {
     for (i, _) in &pairs {
         all.add(*i);
     }
+    if let Some(a) = script["refill"].as_array() {
+        for p in a {
+            all.add(p[0].as_u64().unwrap_or(0) as u32);
+        }
+    }
     for i in &store_ids {
         all.add(*i);
     }
@@ -157,9 +162,14 @@ fn run_script(script: &Value) -> Value {
                     exposed.push(t.cid);
                 }
             }
-            // the change set must remain usable
-            let (id0, _) = pairs[0];
-            cs.add(ents.entity(id0), Trail::new(900_000, 77));
+            // the change set must remain usable: refill it (by default with one amount)
+            let refill: Vec<(u32, u32)> = script["refill"]
+                .as_array()
+                .map(|a| a.iter().map(|p| (p[0].as_u64().unwrap_or(0) as u32, p[1].as_u64().unwrap_or(0) as u32)).collect())
+                .unwrap_or_else(|| vec![(pairs[0].0, 77)]);
+            for (j, (id, amt)) in refill.iter().enumerate() {
+                cs.add(ents.entity(*id), Trail::new(900_000 + j as u32, *amt));
+            }
         }
         let post_clear = if fclear > 0 { listing(&all, &cs, false) } else { vec![] };
         let mut value = vec![];
@@ -198,10 +208,11 @@ fn run_script(script: &Value) -> Value {
             json!({"op":"CS","tid":script["tid"],"pairs":pj,"how":script["how"],"ref":reff,"with_store":with_store,
                    "store":store_js,"after_mut":after_mut,"value":value,"take":take,"tag":tag,
                    "fclear":fclear,"fired":fired,"exposed":exposed,"post_clear":post_clear,
+                   "refill": script.get("refill").cloned().unwrap_or_else(|| json!([[pairs[0].0, 77]])),
                    "ledger":ledger::dump(),"panic":""})
         }
         Err(msg) => json!({"op":"CS","tid":script["tid"],"pairs":pj,"ref":[],"with_store":[],"store":store_js,
-                           "after_mut":[],"value":[],"take":take,"tag":tag,"fclear":0,"fired":false,"exposed":[],"post_clear":[],
+                           "after_mut":[],"value":[],"take":take,"tag":tag,"fclear":0,"fired":false,"exposed":[],"post_clear":[],"refill":[],
                            "ledger":ledger::dump(),"panic":msg}),
     }
 }
